@@ -11,8 +11,9 @@ CONSTANTS
   Mailbox = {"a", "b"}
   Monitor = {1, 2}
   HistLen = 2
+  Cap = %(cap)d
   MaxStored = %(maxstored)d
-INVARIANTS SnapshotFromStore DueRespectsFilter IdsUnique StoredBeforeDeleted
+INVARIANTS SnapshotFromStore DueRespectsFilter IdsUnique StoredBeforeDeleted CapHolds
 PROPERTIES SnapshotStable DropRemovesNothing
 CHECK_DEADLOCK FALSE
 """
@@ -21,6 +22,7 @@ CONSTANTS
   Mailbox = {"alice", "bob"}
   Monitor = {1, 2}
   HistLen = %(histlen)d
+  Cap = %(cap)d
   MaxStored = %(maxstored)d
   Depth = %(depth)d
 INVARIANT Emit
@@ -31,7 +33,8 @@ CONSTANTS
   Mailbox = {"alice", "bob"}
   Monitor = {1, 2}
   HistLen = %(histlen)d
-INVARIANTS SnapshotFromStore DueRespectsFilter IdsUnique
+  Cap = %(cap)d
+INVARIANTS SnapshotFromStore DueRespectsFilter IdsUnique CapHolds
 POSTCONDITION TraceAccepted
 CHECK_DEADLOCK FALSE
 """
@@ -42,40 +45,29 @@ def interesting(seq):
     return "deliver" in ks and "drain" in ks and ("delete" in ks or "purge" in ks or "popquit" in ks or ks.count("deliver") >= 2)
 
 
-def stage(run, vh, quick, pid):
-    """model-check the composed contract, generate behaviours, play them end to end, validate.  Returns #behaviours."""
-    run.model_check("MCInbucket", MC_CFG % dict(maxstored=2 if quick else 3), label="Inbucket (composed contract)")
-    histlen = 2
-    sim = run.generate("GenInbucket", GEN_CFG % dict(histlen=histlen, maxstored=6, depth=14 if quick else 22),
-                       simulate={"num": 3000, "depth": 15 if quick else 23})
-    sim = [s for s in sim if interesting(s)]
-    rng = random.Random(run.seed)
-    rng.shuffle(sim)
-    sim = sim[:120 if quick else 900]
-    if not sim:
-        raise Inconclusive("no end-to-end behaviours generated")
+def stage_cap(run, vh, quick, pid, sim, cap, histlen):
     total = 0
     for store in ("mem", "file"):
         chunk = sim[0::2] if store == "mem" else sim[1::2]
         if not quick:
             chunk = sim
-        behs = [{"id": "e2e-%s-%d" % (store, i), "names": ["alice", "bob"], "steps": s} for i, s in enumerate(chunk)]
+        behs = [{"id": "e2e-%s-c%d-%d" % (store, cap, i), "names": ["alice", "bob"], "steps": s} for i, s in enumerate(chunk)]
         # one assembled server per process (package-level router and metrics): slices run in separate processes
         n = 6
         tfs = []
         import concurrent.futures as cf
         def one(j):
-            bf, tf = run.path("e2e-%s-%d.json" % (store, j)), run.path("e2e-%s-%d.ndjson" % (store, j))
-            json.dump({"seed": run.seed, "store": store, "histlen": histlen, "behaviours": behs[j::n]}, open(bf, "w"))
+            bf, tf = run.path("e2e-%s-c%d-%d.json" % (store, cap, j)), run.path("e2e-%s-c%d-%d.ndjson" % (store, cap, j))
+            json.dump({"seed": run.seed, "store": store, "histlen": histlen, "cap": cap, "behaviours": behs[j::n]}, open(bf, "w"))
             run.harness(vh, ["e2e", bf, tf], timeout=1500)
             return tf
         with cf.ThreadPoolExecutor(max_workers=n) as ex:
             tfs = list(ex.map(one, range(n)))
-        tf = run.path("e2e-%s.ndjson" % store)
+        tf = run.path("e2e-%s-c%d.ndjson" % (store, cap))
         with open(tf, "w") as o:
             for f in tfs:
                 o.write(open(f).read())
-        res = run.validate("InbucketTrace", TRACE_CFG % dict(histlen=histlen), tf)
+        res = run.validate("InbucketTrace", TRACE_CFG % dict(histlen=histlen, cap=cap), tf)
         byid = {b["id"]: b for b in behs}
         # an end-to-end rejection may be a matter of timing of the asynchronous event pipeline: run the behaviour again on its own
         again = [byid[r["trace"]] for r in res["rejections"] if r["trace"] in byid]
@@ -84,19 +76,40 @@ def stage(run, vh, quick, pid):
         confirmed = []
         if again:
             bf, tf2 = run.path("e2e-again.json"), run.path("e2e-again.ndjson")
-            json.dump({"seed": run.seed, "store": store, "histlen": histlen, "behaviours": again}, open(bf, "w"))
+            json.dump({"seed": run.seed, "store": store, "histlen": histlen, "cap": cap, "behaviours": again}, open(bf, "w"))
             run.harness(vh, ["e2e", bf, tf2], timeout=900)
-            res2 = run.validate("InbucketTrace", TRACE_CFG % dict(histlen=histlen), tf2, max_rej=len(again) + 1, parallel=1)
+            res2 = run.validate("InbucketTrace", TRACE_CFG % dict(histlen=histlen, cap=cap), tf2, max_rej=len(again) + 1, parallel=1)
             confirmed = res2["rejections"]
             run.cov["e2e_unreproduced_rejections"] = run.cov.get("e2e_unreproduced_rejections", 0) + len(again) - len(confirmed)
         for r in confirmed:
             ev = r["rejected_event"]
-            run.violation("%s end to end (%s store): step #%d %s is not what the composed contract (Inbucket.tla) allows: observed %s" % (
-                pid, store, r["rejected_event_index"], json.dumps({k: ev.get(k) for k in ("a", "to", "mb", "mon", "n") if k in ev}),
+            run.violation("%s end to end (%s store, cap %d): step #%d %s is not what the composed contract (Inbucket.tla) allows: observed %s" % (
+                pid, store, cap, r["rejected_event_index"], json.dumps({k: ev.get(k) for k in ("a", "to", "mb", "mon", "n") if k in ev}),
                 json.dumps({k: ev.get(k) for k in ("code", "status", "r", "evs", "uidl", "s") if k in ev})[:600]),
-                {"behaviour": byid.get(r["trace"]), "rejection": r, "replay_kind": "e2e", "store": store})
+                {"behaviour": byid.get(r["trace"]), "rejection": r, "replay_kind": "e2e", "store": store, "cap": cap})
         total += len(behs)
+    return total
+
+
+def stage(run, vh, quick, pid):
+    """model-check the composed contract, generate behaviours, play them end to end, validate.  Returns #behaviours."""
+    run.model_check("MCInbucket", MC_CFG % dict(maxstored=2 if quick else 3, cap=0), label="Inbucket (composed contract)")
+    run.model_check("MCInbucket", MC_CFG % dict(maxstored=3 if quick else 4, cap=1), label="Inbucket (composed contract, mailbox cap 1)")
+    histlen = 2
+    total = 0
+    first = None
+    for cap in (0, 2):
+        sim = run.generate("GenInbucket", GEN_CFG % dict(histlen=histlen, cap=cap, maxstored=6, depth=14 if quick else 22),
+                           simulate={"num": 3000, "depth": 15 if quick else 23})
+        sim = [s for s in sim if interesting(s) and (cap == 0 or sum(len(a["to"]) for a in s if a["k"] == "deliver") >= 4)]
+        rng = random.Random(run.seed + cap)
+        rng.shuffle(sim)
+        sim = sim[:60 if quick else 450]
+        if not sim:
+            raise Inconclusive("no end-to-end behaviours generated")
+        first = first or sim[0]
+        total += stage_cap(run, vh, quick, pid, sim, cap, histlen)
     run.cov["evaluations"] += total
     run.cov["e2e_behaviours"] = total
-    run.cov["samples"].append({"e2e": sim[0]})
+    run.cov["samples"].append({"e2e": first})
     return total
